@@ -164,7 +164,10 @@ Fixpoint mutation_round (pop : list agent) (draws : list (nat * T)) : list agent
 Inductive pop_op :=
 | Round (draws : list (nat * T))       (* one Mutations.mutation call                           *)
 | MutOne (i k : nat) (u : T)           (* rl_hyperparam_mutation on individual i only            *)
-| Clone (src dst : nat).               (* population[dst] = population[src].clone()              *)
+| Clone (src dst : nat)                (* population[dst] = population[src].clone()              *)
+| OtherMut (i : nat).                  (* architecture / parameter / activation mutation of individual i:
+                                          hyperparameters are not touched, reinit_opt(individual) re-creates
+                                          EVERY optimizer with its own lr attribute; the label is not modelled *)
 
 Fixpoint upd_nth {X} (l : list X) (i : nat) (x : X) : list X :=
   match l, i with
@@ -172,6 +175,9 @@ Fixpoint upd_nth {X} (l : list X) (i : nat) (x : X) : list X :=
   | _ :: r, 0 => x :: r
   | h :: r, S j => h :: upd_nth r j x
   end.
+
+Definition other_mutation (a : agent) : agent :=
+  {| a_vals := a_vals a; a_hps := a_hps a; a_opts := map (reinit_opt (a_vals a)) (a_opts a); a_mut := None |}.
 
 Definition pop_step (pop : list agent) (o : pop_op) : list agent :=
   match o with
@@ -182,6 +188,9 @@ Definition pop_step (pop : list agent) (o : pop_op) : list agent :=
   | Clone s d => match nth_error pop s with
                  | Some a => upd_nth pop d a        (* deep copy: same values, own registry *)
                  | None => pop end
+  | OtherMut i => match nth_error pop i with
+                  | Some a => upd_nth pop i (other_mutation a)
+                  | None => pop end
   end.
 
 Definition pop_run (pop : list agent) (ops : list pop_op) : list agent := fold_left pop_step ops pop.
@@ -242,7 +251,7 @@ Arguments Build_param {T}.
 Arguments Build_hpent {T}.
 Arguments Build_optim {T}.
 Arguments Build_agent {T}.
-Arguments Round {T}. Arguments MutOne {T}. Arguments Clone {T}.
+Arguments Round {T}. Arguments MutOne {T}. Arguments Clone {T}. Arguments OtherMut {T}.
 Arguments p_min {T}. Arguments p_max {T}. Arguments p_shrink {T}. Arguments p_grow {T}. Arguments p_int {T}.
 Arguments hp_name {T}. Arguments hp_par {T}. Arguments hp_cache {T}.
 Arguments o_cfg_lr {T}. Arguments o_lr_name {T}. Arguments o_wlr {T}. Arguments o_groups {T}.
